@@ -53,6 +53,8 @@ REGISTRY = [
      ["tools/replay_real.sh", "findings/D19_D20_oneshot_open.rs", "verif_replay_d19"]),
     (r"creation_flags_refused_whatever_the_backend",
      ["tools/replay_real.sh", "findings/D19_D20_oneshot_open.rs", "verif_replay_d20"]),
+    (r"the_final_following_open_carries_no_creation_flags",
+     ["tools/replay_real.sh", "findings/D22_open_follow_tmpfile_via_trailing_slash.rs", "verif_replay_d22"]),
     (r"the_link_owner_is_compared_with_the_fsuid_like_the_kernel_does",
      ["tools/replay_real.sh", "findings/D21_fsuid_vs_euid.rs", "verif_replay_d21"]),
     (r"static GLOBAL_PROCFS_HANDLE",
